@@ -131,7 +131,8 @@ def driver_main(args):
     notes.extend(r['notes'])
   if hasattr(mod, 'post_merge'):
     # optional cross-shard oracle (e.g. global collision checks)
-    mod.post_merge(tier, counters, violations, inconclusive)
+    # coverage floors decided in post_merge only make sense for full runs
+    mod.post_merge(tier, counters, violations, [] if args.replay else inconclusive)
   if not args.replay:
     for key in getattr(mod, 'REQUIRED_COUNTERS', []):
       if not counters.get(key):
